@@ -85,10 +85,10 @@ def classify(body, final):
         return ("null_table",)
     if b["k"] == "mcall" and b["m"] in ("checked_image", "checked_value") and path_of(b["recv"]) == "self":
         return ("checked",)
-    convs = [m for m in find(b, "mcall") if m["m"] == final and path_of(m["recv"]) != "self"]
+    convs = [m for m in find(body, "mcall") if m["m"] == final and path_of(m["recv"]) != "self"]
     if convs:
-        froms = [c for c in find(b, "call") if path_of(c["f"]) == "From"]
-        route = [turbo(m) for m in find(b, "mcall") if m["m"] in ("then_default", "then")]
+        froms = [c for c in find(body, "call") if path_of(c["f"]) == "From"]
+        route = [turbo(m) for m in find(body, "mcall") if m["m"] in ("then_default", "then")]
         if len(convs) == 1 and len(froms) == 1:
             return ("conv", tuple(route))
     if show(b, 0) == "Ok(DataType::Null)":
@@ -115,7 +115,7 @@ def j1_x_datatype(rep, ty, X, fns):
                 cls = classify(a["body"], name)
                 if cls[0] == "other":
                     rep.undecidable("J1", "%s::%s@%s" % (ty, name, v), "arm body not understood: %s" % cls[1], "src/%s:%d" % (IJ, a["l"]))
-                    continue
+                    cls = ("undecided",)
                 g = show(a["guard"], 0) if a.get("guard") else None
                 tab.setdefault(v, (cls, g, a["l"]))
             tabs[name] = tab
@@ -137,6 +137,9 @@ def j1_x_datatype(rep, ty, X, fns):
         key = "%s@%s" % (ty, v)
         sample = {"impl": ty, "co_domain": v, "super_image": None if a is None else a[0][0], "value": None if b is None else b[0][0]}
         where = "src/%s:%d" % (IJ, (b or a)[2])
+        if (a and a[0][0] == "undecided") or (b and b[0][0] == "undecided"):
+            rep.instance("J1", key, sample)
+            continue
         if v == "*":
             rep.instance("J1", key, sample, nontrivial=False)
             for nm, r in (("super_image", a), ("value", b)):
@@ -659,31 +662,57 @@ def j3(rep, mir):
         for i, ss in enumerate(succ):
             for s in ss:
                 pred[s].append(i)
-        # round-trip tests: (root x, T, true-target block)
+        # round-trip tests: (root x, T, true-target block, local holding `x as T`)
+        def resolve(op):
+            """(local, defining rvalue) of an operand through single-assignment copies; None for projections / multi-defs."""
+            n = 0
+            while op[0] in ("c", "m") and op[1][1] == "" and ndef.get(op[1][0]) == 1 and n < 20:
+                rv = defs[op[1][0]]
+                if rv[0] == "use":
+                    op = rv[1]
+                    n += 1
+                    continue
+                return op[1][0], rv
+            return None
+
         tests = []
-        part_of_test = set()
+        part_of_test = {}
         for bi, bl in enumerate(b["blocks"]):
-            for st in bl["s"]:
-                rv = st[1]
-                if rv[0] == "bin" and rv[1] in ("Eq", "Ne"):
-                    for a, o in ((rv[2], rv[3]), (rv[3], rv[2])):
-                        # a = (x as T) as S ?
-                        if a[0] in ("c", "m") and a[1][1] == "" and ndef.get(a[1][0]) == 1 and defs[a[1][0]][0] == "cast":
-                            c2 = defs[a[1][0]]
-                            inner = c2[2]
-                            if inner[0] in ("c", "m") and inner[1][1] == "" and ndef.get(inner[1][0]) == 1 and defs[inner[1][0]][0] == "cast":
-                                c1 = defs[inner[1][0]]
-                                x = root(c1[2])
-                                if x == root(o) and x[0] == "place" and ty_of_operand(c1[2]) == mir.types[c2[3]]:
-                                    t = bl["t"]
-                                    if t[0] == "switch" and t[1][0] in ("c", "m") and t[1][1] == st[0] or (t[0] == "switch" and root(t[1]) == ("place", st[0][0], st[0][1])):
-                                        zero = [x_[1] for x_ in t[2] if str(x_[0]) == "0"]
-                                        if len(zero) == 1:
-                                            tt = t[3] if rv[1] == "Eq" else zero[0]
-                                            if pred[tt] == [bi]:
-                                                tests.append((x, mir.types[c1[3]], tt))
-                                            part_of_test.add(id(c1))
-                                            part_of_test.add(id(c2))
+            t = bl["t"]
+            if t[0] != "switch":
+                continue
+            r = resolve(t[1])
+            if r is None or r[1][0] != "bin" or r[1][1] not in ("Eq", "Ne"):
+                continue
+            rv = r[1]
+            zero = [x_[1] for x_ in t[2] if str(x_[0]) == "0"]
+            if len(zero) != 1 or len(t[2]) != 1:
+                continue
+            tt = t[3] if rv[1] == "Eq" else zero[0]
+            if pred[tt] != [bi]:
+                continue
+            for a, o in ((rv[2], rv[3]), (rv[3], rv[2])):
+                r2 = resolve(a)
+                if r2 is None or r2[1][0] != "cast":
+                    continue
+                c2 = r2[1]
+                r1 = resolve(c2[2])
+                if r1 is None or r1[1][0] != "cast":
+                    continue
+                l1, c1 = r1
+                x = root(c1[2])
+                if x == root(o) and x[0] == "place" and ty_of_operand(c1[2]) == mir.types[c2[3]]:
+                    tests.append((x, mir.types[c1[3]], tt, l1))
+                    part_of_test[id(c1)] = (tt, l1, id(c2))
+                    part_of_test[id(c2)] = (tt, None, None)
+
+        def mentions_local(j, loc):
+            if isinstance(j, list):
+                if len(j) == 2 and j[0] in ("c", "m") and isinstance(j[1], list) and len(j[1]) == 2 and j[1][0] == loc and isinstance(j[1][1], str):
+                    return True
+                return any(mentions_local(y, loc) for y in j)
+            return False
+
         # dominance by a test's true target: every path from entry to the block passes through tt
         def dominated(blk, tt):
             if blk == tt:
@@ -711,9 +740,29 @@ def j3(rep, mir):
             if ls:
                 if id(rv) in part_of_test:
                     how = "operand of a round-trip test"
+                    tt, l1, c2id = part_of_test[id(rv)]
+                    if l1 is not None:
+                        # the truncated value may only be used by the test itself or where the test succeeded (through copies)
+                        carriers = {l1}
+                        changed = True
+                        while changed:
+                            changed = False
+                            for bl2 in b["blocks"]:
+                                for st2 in bl2["s"]:
+                                    if st2[1][0] == "use" and st2[0][1] == "" and st2[0][0] not in carriers and any(mentions_local(st2[1], c) for c in carriers):
+                                        carriers.add(st2[0][0])
+                                        changed = True
+                        for bj, bl2 in enumerate(b["blocks"]):
+                            for st2 in bl2["s"]:
+                                if st2[1][0] == "use" and st2[0][0] in carriers:
+                                    continue
+                                if id(st2[1]) != c2id and any(mentions_local(st2[1], c) for c in carriers) and not dominated(bj, tt):
+                                    ok, how = False, "its result is also used where the round-trip test did not succeed"
+                            if any(mentions_local(bl2["t"], c) for c in carriers) and not dominated(bj, tt):
+                                ok, how = False, "its result is also used where the round-trip test did not succeed"
                 else:
                     x = root(rv[2])
-                    g = [t for t in tests if t[0] == x and t[1] == to and dominated(bi, t[2])]
+                    g = [t_ for t_ in tests if t_[0] == x and t_[1] == to and dominated(bi, t_[2])]
                     if g:
                         how = "dominated by the true branch of ((x as %s) as %s) == x" % (to, frm)
                     else:
